@@ -513,6 +513,19 @@ def canon_labels(text, type_names):
     return _LABEL_RE.sub(repl, text)
 
 
+def strip_comments(text):
+    """drop comment-only lines of emitted assembly (`;` NASM, `//` AArch64 / RISC-V) except the `#ctx`
+    hook lines the monitors read: comment wording has no bearing on any property, so a rewording in /repo
+    must not break the text correspondence (C17 still compares bytes)"""
+    out = []
+    for l in text.split("\n"):
+        t = l.strip()
+        if (t.startswith(";") or t.startswith("//")) and "#ctx" not in t:
+            continue
+        out.append(l)
+    return "\n".join(out)
+
+
 def mangled_type_names(*dumps):
     names = set()
     for d in dumps:
